@@ -43,6 +43,15 @@ def gen_engine():
     if i_inc < 0 or i_chk < 0:
         raise GenError("continue_internal: counter increment / can_continue test not found")
     cont_first = i_chk < i_inc
+    # 6b. the nesting counter is decremented BEFORE the error-delivery block (whose no-handler
+    #     branch returns Err early): otherwise an error return leaks the counter
+    i_dec = body.find("self.recursive_continue_count -= 1")
+    i_del = body.find("match &self.on_error")
+    if i_dec < 0 or i_del < 0:
+        raise GenError("continue_internal: counter decrement / error-delivery block not found")
+    if body.count("self.recursive_continue_count -= 1") != 1:
+        raise GenError("continue_internal: the counter is decremented at more than one place, model has no such variant")
+    dec_first = i_dec < i_del
     # 7. warnings cleared after delivery to the handler
     m = re.search(r"Some\(on_err\)\s*=>\s*\{", body)
     if not m:
@@ -89,6 +98,7 @@ def gen_engine():
     g_swdef = "if_async_we_cant(" in fn_body(flw, "switch_to_default_flow")
     facts = {"engine.guard_setvar": g_setvar, "engine.guard_remove_flow": g_rmflow,
              "engine.guard_switch_default": g_swdef, "engine.guard_load": g_load}
+    facts.update({"engine.counter_dec_first": dec_first})
     facts.update({"engine.cont_check_first": cont_first, "engine.path_validated_first": path_first,
              "engine.eval_args_first": eval_first, "engine.ext_guard_fixed": guard_fixed})
     facts.update({"engine.alias_current": alias, "engine.warnings_cleared": warn,
@@ -109,5 +119,6 @@ def gen_engine():
            f"Definition guard_setvar : bool := {b(g_setvar)}.\n"
            f"Definition guard_remove_flow : bool := {b(g_rmflow)}.\n"
            f"Definition guard_switch_default : bool := {b(g_swdef)}.\n"
-           f"Definition guard_load : bool := {b(g_load)}.\n")
+           f"Definition guard_load : bool := {b(g_load)}.\n"
+           f"Definition counter_dec_first : bool := {b(dec_first)}.\n")
     return write_if_changed("theories/Gen/EngineGen.v", out), facts
